@@ -155,24 +155,9 @@ def run_task(source, contracts, loops, qualname, natives=None, timeout_ms=10000,
     res.assumptions = sorted(ctx.assumptions)
     t1 = time.time()
     seen = {}
-    for ob in ctx.obligations:
-        r = check(ob, ctx, timeout_ms=timeout_ms)
-        d = {
-            "id": ob.id,
-            "kind": ob.kind,
-            "label": ob.label,
-            "lineno": ob.lineno,
-            "path": ob.path,
-            "props": ob.props,
-            "status": r["status"],
-            "backend": r.get("backend"),
-            "time": round(r["time"], 4),
-        }
-        if "model" in r:
-            d["model"] = r["model"]
-        if "reason" in r:
-            d["reason"] = r["reason"]
-        res.obligations.append(d)
+    from .solve import solve_all
+
+    res.obligations = solve_all(ctx, ctx.obligations, timeout_ms)
     res.solve_s = time.time() - t1
     res._ctx = ctx
     return res
